@@ -32,6 +32,58 @@ SEARCH = {"flat": ["/src"], "deep": ["/src"], "two": ["/src1", "/src2"], "mirror
           "spelled": ["/src1/", "/src2/q/../../src2"]}
 
 
+MDIMS = {
+    "version": [1, 2, 3],
+    "shape": ["single", "flat2", "samedir2", "nested3", "samename2", "ungrouped3", "order2"] +
+             sorted(k for k in SHAPES if "~" in k and k.split("~")[0] == "flat2"),
+    "layout": sorted(LAYOUTS),
+    "decoy": ["none", "before", "after"],
+}
+TNAMES = ["name", "..cache", "100% done", "name.torrent", "é 中 [x]"]
+
+
+def matrix_rows(tier, prop, per_run=8):
+    """Pairwise covering rows over the rebuild configuration dimensions (see harness/matrix.py) as parameter
+    dictionaries of the property's `job`."""
+    from harness import matrix
+    dims = dict(MDIMS)
+    if prop == "C13":
+        dims["via"] = ["assembler", "cli"]
+        dims["tname"] = TNAMES
+    else:
+        dims["pre"] = ["empty", "correct", "wrong-full", "shorter", "unrelated"]
+
+    def ok(row):
+        if row["shape"] == "ungrouped3" and row["version"] != 1:
+            return False
+        if row["shape"] == "samename2" and row["layout"] in ("flat", "repeat", "named-dir"):
+            return False         # two different files would have to share one location
+        if row["shape"] == "single" and row["layout"] == "mirror":
+            return False
+        return True
+    if prop not in _MROWS:
+        _MROWS[prop] = matrix.pairwise(dims, ok)
+    rows = _MROWS[prop]
+    if tier != "thorough":
+        seed = int(os.environ.get("VERIF_SEED", "0") or 0)
+        n = len(rows)
+        rows = [rows[i] for i in sorted({(seed * per_run * 7 + i * (n // per_run + 1)) % n for i in range(per_run)})]
+    out = []
+    for row in rows:
+        params = dict(version=row["version"], shape=row["shape"], P=16384, K=1, layout=row["layout"], decoy=row["decoy"])
+        if prop == "C13":
+            params.update(via=row["via"], tname=row["tname"])
+            tail = "%s.t%d" % (row["via"], TNAMES.index(row["tname"]))
+        else:
+            params.update(pre=row["pre"])
+            tail = "pre-" + row["pre"]
+        out.append(("matrix.v%d.%s.%s.decoy-%s.%s" % (row["version"], row["shape"], row["layout"], row["decoy"], tail), "job", params))
+    return out
+
+
+_MROWS = {}
+
+
 def build_world(E, version, shape, P, K, layout, decoy="none", dest_pre="empty", order="reversed", lo=0, names=None,
                 tname="name", damage=None):
     """Returns (fs, sizes, meta, expected) where expected maps destination path -> content ABuf."""
